@@ -69,7 +69,9 @@ def o_mapping(inp):
             else:
                 cls.add("append-new")
             if name == "set_field":
-                fld = Field(k, v, 100 + step)
+                # the Field handed over is the caller's object: stored as it is (with or without a start line of its own)
+                fld = Field(k, v, 100 + step) if (step + len(k)) % 2 else Field(k, v)
+                seen_fields[id(fld)] = (fld, (fld.key, repr(fld.value), fld.start_line))
                 entry.set_field(fld)
                 model[k] = fld
             else:
